@@ -105,10 +105,11 @@ fn build(e: &Value) -> Option<Built> {
     let g = group(gs(e, "g"));
     let u = gi(e, "U") as f64;
     match gs(e, "shape") {
-        "square" | "kite" | "quad" => {
+        "square" | "kite" | "kite2" | "quad" => {
             let radial = match gs(e, "shape") {
                 "square" => vec![1., 1., 1., 1.],
                 "kite" => vec![1., 0.5, 1., 0.5],
+                "kite2" => vec![0.5, 1., 0.5, 1.],
                 _ => vec![1., 0.5, 0.8, 0.3],
             };
             let st = PackedState::from_group(LineShape::from_radial(gs(e, "shape"), radial).ok()?, &g)
